@@ -226,10 +226,62 @@ def clause_d(facts5, rep):
                 o = cval(e['args'][1]) if len(e['args']) > 1 else 5
                 m += 1
                 rep.check(o in (2, 4, 5), 'E7.memory-order', f.qn, show(e), locline(e['loc']), 'lock acquisition needs at least acquire ordering', facts5.config)
+            if (e.get('cname') or '').startswith('compare_exchange') and f.short == 'lock':
+                o = cval(e['args'][2]) if len(e['args']) > 2 else 5
+                m += 1
+                rep.check(o in (2, 4, 5), 'E7.memory-order', f.qn, show(e)[:70], locline(e['loc']), 'lock acquisition needs at least acquire ordering on success', facts5.config)
             if e.get('cname') == 'store' and f.short == 'unlock':
                 o = cval(e['args'][1]) if len(e['args']) > 1 else 5
                 m += 1
                 rep.check(o in (3, 5), 'E7.memory-order', f.qn, show(e), locline(e['loc']), 'unlock needs at least release ordering', facts5.config)
+    # acquisition: lock() may only be left after an atomic read-modify-write that found the lock word false
+    for f in facts5.functions:
+        if f.cls_qn != 'sonic_json::SpinLock' or f.short != 'lock':
+            continue
+        cas = [(bid, i, e) for bid, i, s, e in f.walk() if e.get('k') == 'call' and (e.get('cname') or '').startswith('compare_exchange')]
+        xch = [(bid, i, e) for bid, i, s, e in f.walk() if e.get('k') == 'call' and e.get('cname') == 'exchange']
+        rep.require(bool(cas) or bool(xch), 'C17.d: no atomic read-modify-write in SpinLock::lock')
+        for bid, i, e in xch:
+            m += 0
+            rep.check(bool(e.get('args')) and cval(e['args'][0]) == 1, 'E7.lock-acquire', f.qn, show(e), locline(e['loc']), 'the lock word is set to true by the exchange', facts5.config)
+        if cas:
+            # every compare_exchange must be attempted with expected == false: a failed attempt writes the observed
+            # value (true) into `expected`, so it has to be reset before the next attempt
+            def exp_var(e):
+                a = strip(e['args'][0]) if e.get('args') else None
+                return a['id'] if a is not None and a.get('k') == 'ref' else None
+            evar = exp_var(cas[0][2])
+            rep.require(evar is not None, 'C17.d: expected operand of compare_exchange not bound')
+
+            def gen_stmt(st):
+                s_ = strip(st)
+                if s_ is None:
+                    return []
+                if s_.get('k') == 'decl' and any(vd['id'] == evar and vd.get('init') is not None and cval(vd['init']) == 0 for vd in s_['vars']):
+                    return ['expected-false']
+                for y in walk(s_):
+                    if y.get('k') == 'bin' and y['op'] == '=' and strip(y['l']) is not None and strip(y['l']).get('id') == evar and cval(y['r']) == 0:
+                        return ['expected-false']
+                return []
+
+            def kill_stmt(st):
+                # the attempt itself may overwrite `expected` (on failure)
+                for y in walk(st):
+                    if y.get('k') == 'call' and (y.get('cname') or '').startswith('compare_exchange'):
+                        return ['expected-false']
+                return []
+            from ..e2_dom import Must as _Must
+            # the obligation is evaluated before the call's own kill: use the state at the call's statement start
+            Mx = _Must(f, gen_stmt=gen_stmt, kill_stmt=kill_stmt)
+            for bid, i, e in cas:
+                st = Mx.at(bid, i)
+                if st is None:
+                    continue
+                m += 1
+                ok_new = len(e.get('args', [])) >= 2 and cval(e['args'][1]) == 1
+                rep.check('expected-false' in st and ok_new, 'E7.lock-acquire', f.qn, show(e)[:70], locline(e['loc']),
+                          'every compare_exchange attempt must start from expected == false (a failed attempt stores the observed true into it): '
+                          'otherwise true -> true "succeeds" and two threads hold the lock', facts5.config)
     rep.require(m >= 2, 'C17.d: SpinLock orders found: %d' % m)
     for c in facts5.classes:
         if c['qn'] == 'sonic_json::SpinLock':
